@@ -94,7 +94,7 @@ func (g *gen) sortOfSpecType(t string) string {
 	case "error":
 		g.ensureSort(sErr)
 		return sErr
-	case "[]byte":
+	case "[]byte", "[]int", "[]string":
 		g.ensureSort(sSlice)
 		return sSlice
 	case "ptr":
@@ -412,6 +412,15 @@ func (g *gen) specExpr(e *env, x ast.Expr, want string, c *Clause) T {
 				if st, ok := base.GoT.Underlying().(*types.Slice); ok {
 					es, _ = g.sortOf(st.Elem())
 					et = st.Elem()
+				}
+			}
+			if et != nil {
+				switch et.Underlying().(type) {
+				case *types.Struct, *types.Array:
+					if !isErrorType(et) {
+						// elements that are structs live at their element address (as in load/store)
+						return g.specLoad(e, g.elemAddr(sx("s.reg", base.S), g.idxAdd(sx("s.off", base.S), g.toIdx(i))), et)
+					}
 				}
 			}
 			h := g.heapSlice(es)
